@@ -40,7 +40,9 @@ import (
 //
 // Pool messages addressed to a dead worker incarnation are removed at once (a dead actor processes
 // nothing: delivering and dropping them is the same no-op). Messages FROM a dead incarnation stay.
-// Search and continuation as in C42; the continuation additionally spawns a worker when none is alive.
+// Search (cooperative level-synchronous BFS, c42Search) and continuation as in C42; the continuation
+// additionally spawns a worker when none is alive, and lets one more interval pass after the goal was
+// reached so that a late second confirmation would surface.
 // =============================================================================================
 
 type c44Params struct {
@@ -148,9 +150,8 @@ func (w *c44World) join(idx int) {
 	old := w.workers[idx]
 	k := &c44Worker{name: old.name, inc: old.inc + 1, alive: true, names: &c42Names{}}
 	k.ep = &c42Consumer{name: k.tag()}
-	// the controller registers from its PostStart, i.e. during Spawn: it must be known to the capture
-	// hook before that; the companion name is derived from the endpoint incarnation, so the hook
-	// resolves unknown senders lazily instead (see resolveSender).
+	// the controller registers from its PostStart, i.e. during Spawn, before the harness can learn its
+	// PID: the nonce of that first RegisterConsumer is noted right after the spawn (below).
 	w.workers[idx] = k
 	w.all = append(w.all, k)
 	w.incs[k.tag()] = k
@@ -606,8 +607,8 @@ func c44Scenarios() []c44Params {
 	if !r.Thorough() {
 		return []c44Params{mk(3, 1, 1, 0, 1, 1), mk(2, 1, 1, 1, 1, 1)} // 84,942 + 107,153 transitions
 	}
-	// ascending (estimated) cost; the first has 300,087 transitions
-	return []c44Params{mk(3, 1, 1, 1, 1, 1), mk(2, 2, 1, 1, 1, 1), mk(3, 1, 1, 1, 2, 2), mk(3, 1, 2, 0, 1, 1), mk(3, 1, 1, 2, 1, 1)}
+	// 300,087 / (rejoin, fault free) / 1,116,829 / 1,387,632 transitions
+	return []c44Params{mk(3, 1, 1, 1, 1, 1), mk(3, 1, 0, 1, 1, 2), mk(3, 1, 2, 0, 1, 1), mk(2, 2, 1, 0, 1, 1)}
 }
 
 func TestVerifC44(t *testing.T) {
